@@ -12,6 +12,7 @@ import (
 func init() {
 	zzsv.Register("ZZ_C06_Scopes", ZZ_C06_Scopes)
 	zzsv.Register("ZZ_C06_Errors", ZZ_C06_Errors)
+	zzsv.Register("ZZ_C06_AfterFailedCalls", ZZ_C06_AfterFailedCalls)
 }
 
 func stT(e *zzExpr) *zzStmt                 { return &zzStmt{kind: sTrace, e: e} }
@@ -214,4 +215,37 @@ func ZZ_C06_Errors(sv *zzsv.T) {
 	default:
 		sv.Assert("C06.call_error", err != nil)
 	}
+}
+
+// ZZ_C06_AfterFailedCalls: a wrong argument count, an unknown function, a
+// type error or a panic() is a run-time error of that call and that run
+// only: after many runs that failed at the bottom of a deep recursion (100
+// runs x 120 frames quick, 400 x 120 thorough - whatever each abandons must
+// not add up), functions still run and return the value of their `return`:
+// a correct call, a recursive one, one made before the definition.
+func ZZ_C06_AfterFailedCalls(sv *zzsv.T) {
+	sv.Param("engine.msteps", 1500, 6000)
+	bottoms := []string{"return helper(k, 1);", "return nosuch(k);", "return k + \"s\";", "panic(\"bottom\");"}
+	bottom := bottoms[sv.Choice("bottom", len(bottoms))]
+	src := "r = big(3) + down(N); function helper(p) { return p; } function down(k) { if (k <= 0) { if (Z == 0) { " + bottom + " } return B; } return down(k - 1) + 1; } function big(p) { return p * 2; } return r;"
+	sv.Note("script", src)
+	runs := sv.Param("failed.runs", 100, 400)
+	depth := int64(sv.Param("failed.depth", 120, 120))
+	b := sv.Int64("B")
+	e := New(src)
+	e.SetVariable("B", &object.Integer{Value: b})
+	e.SetVariable("Z", &object.Integer{Value: 0})
+	e.SetVariable("N", &object.Integer{Value: depth})
+	sv.Assume(e.Prepare() == nil)
+	for i := 0; i < runs; i++ {
+		_, err := e.Execute(nil)
+		if i == 0 {
+			sv.Assert("C06.afterfailed.history_fails", err != nil)
+		}
+	}
+	e.SetVariable("Z", &object.Integer{Value: 1})
+	e.SetVariable("N", &object.Integer{Value: 4})
+	out, err := e.Execute(nil)
+	zzDescribe(sv, "result", out, err)
+	sv.Assert("C06.afterfailed.calls_work", err == nil && zzSame(sv, out, zInt(6+b+4)))
 }
